@@ -149,7 +149,7 @@ const (
 
 var scNames = []string{"valid", "invalid-witness", "hint-error", "entropy-error", "entropy-short-read"}
 
-var c03Feat = GenFeat{Commit: true, Lookup: true, Range: true, Hint: true, Wide: true, Bits: true, ScaledBool: true, MaxOps: 9, MinOps: 1}
+var c03Feat = GenFeat{Commit: true, ChainCommit: true, Lookup: true, Range: true, Hint: true, Wide: true, Bits: true, ScaledBool: true, MaxOps: 9, MinOps: 1}
 
 type c03ref struct {
 	res   proveRes
